@@ -221,7 +221,7 @@ def stitch_expected(dec, bid):
 # --------------------------------------------------------------------------------------
 # Random histories
 
-def rand_history(rng, nsteps, crashes=True, deletes=True, crash_kinds=("crash", "crash", "crash_empty"), min_crash=3):
+def rand_history(rng, nsteps, crashes=True, deletes=True, crash_kinds=("crash", "crash", "crash_empty"), min_crash=3, faults=False):
     """Return (steps, marks): harness steps, and marks[i] = dict describing step i
     ('kind': src|backup|delete|arch|..., plus bookkeeping)."""
     steps = [{"op": "init"}]
@@ -245,13 +245,15 @@ def rand_history(rng, nsteps, crashes=True, deletes=True, crash_kinds=("crash", 
             plan = None
             if crashes and rng.random() < 0.3:
                 plan = {rng.choice(list(crash_kinds)): rng.randrange(min_crash, 70)}
+            if plan is None and faults and rng.random() < 0.3:
+                plan = {"faults": [[rng.randrange(2, 60), rng.choice(["NotFound", "AlreadyExists", "PermissionDenied", "Other"])]]}
             st = {"op": "backup", "opts": small_opts(rng)}
             if plan:
                 st["plan"] = plan
             steps.append(st)
             marks.append({"kind": "backup", "plan": plan, "tree": tree, "snap_at": len(steps) - 3})
             nb += 1
-            last_crashed = plan is not None
+            last_crashed = plan is not None and "faults" not in plan
         elif r < 0.55 and deletes and nb > 0:
             ids = sorted(rng.sample(range(nb), rng.randrange(0, min(nb, 3) + 1)))
             st = {"op": "delete", "bands": ids, "dry": rng.random() < 0.2}
@@ -273,7 +275,14 @@ def add_model_history(h, steps, marks, results, names, from_index=0):
     """Feed the executed steps of a history into an l4.History (crashed backups by index)."""
     for i in range(from_index, len(steps)):
         st, mk, rs = steps[i], marks[i], results[i]
-        if mk["kind"] == "backup" and mk.get("plan"):
+        if mk["kind"] == "backup" and mk.get("plan") and "faults" in mk["plan"]:
+            k, kind = mk["plan"]["faults"][0]
+            injected = any(it.get("injected") for it in rs.get("trace", []))
+            if injected:
+                h.add(st, rs, mode=1, fail=(k, kind))
+            else:
+                h.add(st, rs)
+        elif mk["kind"] == "backup" and mk.get("plan"):
             plan = mk["plan"]
             k = plan.get("crash", plan.get("crash_empty"))
             if rs.get("crashed"):
@@ -294,3 +303,15 @@ def collect_names(names, steps, results):
             names.add_arch(rs["arch"])
         if "trace" in rs:
             names.add_trace(rs["trace"])
+
+
+def order_trap_tree():
+    """root-level names that are byte-wise above deeper paths (path order is not byte order)"""
+    return {"k": "d", "mode": 0o755, "mtime": 10**18, "c": {
+        "a": {"k": "f", "data": "6161", "mode": 0o644, "mtime": 10**18 + 1},
+        "m": {"k": "f", "data": "6d6d6d", "mode": 0o644, "mtime": 10**18 + 2},
+        "~": {"k": "f", "data": "7e", "mode": 0o644, "mtime": 10**18 + 3},
+        "b": {"k": "d", "mode": 0o755, "mtime": 10**18, "c": {"x": {"k": "f", "data": "7878", "mode": 0o600, "mtime": 10**18 + 4},
+                                                              "y": {"k": "f", "data": "79", "mode": 0o600, "mtime": 10**18 + 5}}},
+        "d": {"k": "d", "mode": 0o755, "mtime": 10**18, "c": {"f": {"k": "f", "data": "6666", "mode": 0o600, "mtime": 10**18 + 6},
+                                                              "g": {"k": "f", "data": "676767", "mode": 0o600, "mtime": 10**18 + 7}}}}}
